@@ -15,6 +15,7 @@ static struct cmd cmds[] = {
   {"c12", cmd_c12},
   {"c09", cmd_c09},
   {"c13", cmd_c13},
+  {"c07", cmd_c07},
   {NULL, NULL}
 };
 int main(int argc, char **argv) {
